@@ -35,6 +35,17 @@ CLAIMED = {
         "indent only required to be spaces; hooks are thin re-exports.",
         "DESIGN.md section 4, C20",
     ),
+    "C04": (
+        "bounded enumeration of boundary strings x parser configurations + proptest random search, independent reference grammar/tables as oracle; model-based (stateful) testing of typed accessors against a map model",
+        "Ranged integer parsers of every target width (value_parser!(T) and ::new(), chained .range() calls incl. empty and wider-than-T "
+        "ranges) are compared with an exact i128 reading of the decimal grammar on every boundary +-2 in all sign/zero-padding renderings "
+        "and on random strings; bool/boolish/falsey parsers with the documented literal tables in every case pattern; possible-value "
+        "parsers with names/aliases/case flips; accepted values must equal the mathematical/raw value, rejections must be value errors "
+        "naming the argument. Typed get/remove histories run in lock-step with a map model, checking that failed accesses disturb nothing.",
+        "Reference grammar = documented FromStr syntax; case-insensitivity compared by lower-casing on a restricted alphabet; debug "
+        "assertions on.",
+        "DESIGN.md section 4, C04",
+    ),
     "C12": (
         "proptest random search over generated command trees with the full help surface, no-panic / bounded-padding / section-membership / hidden-absence oracles, metamorphic level markers for help dispatch, shrinking (tape + serialised case)",
         "Generated trees (all hide modes, short-only/Count flags, custom headings, next-line help, flatten, templates, possible values, "
